@@ -100,6 +100,8 @@ Step ==
                        [] i.k = "jmp"   -> pc' = i.t[1] /\ UNCHANGED <<d, x, xu, al>>
                        [] i.k = "jcc"   -> pc' \in {i.t[1], pc + 1} /\ UNCHANGED <<d, x, xu, al>>
                        [] i.k = "ijmp"  -> pc' \in {i.t[j] : j \in 1..Len(i.t)} /\ UNCHANGED <<d, x, xu, al>>
+                       \* end of the body reached without `return`: the function's value is indeterminate (6.9.1p12)
+                       [] i.k = "falloff" -> pc' = pc + 1 /\ x' = 0 /\ xu' = TRUE /\ UNCHANGED <<d, al>>
                        [] i.k = "ret"   -> Stop
                        [] i.k = "stmt-" -> IF mode = "st" /\ i.n = sid THEN Stop
                                            ELSE pc' = pc + 1 /\ UNCHANGED <<d, x, xu, al>>
